@@ -967,3 +967,49 @@ package ctfe
 //@ requires s != nil && c != nil
 //@ fresh result
 //@ ensures [service-holds-the-given-storage-and-cache] result != nil && result.storage == s && result.cache == c
+
+// ---- C15: configuration loaders ("in text and binary protobuf form") --------------------------------
+// A file that cannot be read, or that parses in neither form, is an error; the text form is tried
+// first and the binary form only when the text form fails; an accepted file has at least one log
+// (and, for the multi-backend form, at least one backend), so that validation never sees an empty set
+// from a loader.
+//@ func LogConfigFromFile
+//@ props C15
+//@ arith int
+//@ site os.ReadFile#1 as rf
+//@ site prototext.Unmarshal#1 as tx
+//@ site proto.Unmarshal#1 as bin
+//@ ensures [unreadable-file-is-an-error] rf.res1 != nil ==> result1 != nil && result0 == nil && !tx.called
+//@ ensures [binary-form-only-after-the-text-form-failed] bin.called ==> tx.called && tx.res != nil
+//@ ensures [neither-form-parses-is-an-error] tx.called && tx.res != nil && bin.res != nil ==> result1 != nil && result0 == nil
+//@ ensures [accepted-means-at-least-one-log] result1 == nil ==> len(result0) > 0
+//@ at tx assert [text-form-of-the-file-contents] tx.b == rf.res0
+//@ at bin assert [binary-form-of-the-same-contents-into-the-same-message] bin.b == rf.res0 && bin.m == tx.m
+
+//@ func MultiLogConfigFromFile
+//@ props C15
+//@ arith int
+//@ site os.ReadFile#1 as rf
+//@ site prototext.Unmarshal#1 as tx
+//@ site proto.Unmarshal#1 as bin
+//@ ensures [unreadable-file-is-an-error] rf.res1 != nil ==> result1 != nil && result0 == nil && !tx.called
+//@ ensures [binary-form-only-after-the-text-form-failed] bin.called ==> tx.called && tx.res != nil
+//@ ensures [neither-form-parses-is-an-error] tx.called && tx.res != nil && bin.res != nil ==> result1 != nil && result0 == nil
+//@ ensures [accepted-means-logs-and-backends-present] result1 == nil ==> result0 != nil && result0.LogConfigs != nil && len(result0.LogConfigs.Config) > 0 && result0.Backends != nil && len(result0.Backends.Backend) > 0
+//@ at tx assert [text-form-of-the-file-contents] tx.b == rf.res0
+//@ at bin assert [binary-form-of-the-same-contents-into-the-same-message] bin.b == rf.res0 && bin.m == tx.m
+
+// The single-backend form is the multi-backend form with one backend named "default": every log
+// refers to it, the logs are the ones given, in order, and nothing else about them changes.
+//@ func ToMultiLogConfig
+//@ props C15
+//@ arith int
+//@ loop-frames
+//@ requires forall j int :: 0 <= j && j < len(cfg) ==> cfg[j] != nil
+//@ fresh result
+//@ loop 1 invariant forall j int :: 0 <= j && j <= rangeindex ==> cfg[j].LogBackendName == "default"
+//@ loop 1 invariant forall j int :: 0 <= j && j < len(cfg) ==> cfg[j].Prefix == old(cfg[j].Prefix)
+//@ ensures [one-backend-with-the-given-spec] result != nil && result.Backends != nil && len(result.Backends.Backend) == 1 && result.Backends.Backend[0] != nil && result.Backends.Backend[0].Name == "default" && result.Backends.Backend[0].BackendSpec == beSpec
+//@ ensures [the-logs-given-in-order] result.LogConfigs != nil && result.LogConfigs.Config == cfg
+//@ ensures [every-log-refers-to-that-backend] forall j int :: 0 <= j && j < len(cfg) ==> cfg[j].LogBackendName == "default"
+//@ ensures [nothing-else-about-a-log-changes] forall j int :: 0 <= j && j < len(cfg) ==> cfg[j].LogId == old(cfg[j].LogId) && cfg[j].Prefix == old(cfg[j].Prefix) && cfg[j].IsMirror == old(cfg[j].IsMirror) && cfg[j].IsReadonly == old(cfg[j].IsReadonly)
